@@ -66,7 +66,7 @@ def run_groups(names, tier, known_by_group=None, log=None, cache=True):
                     o['discharged'] += len(subs) - len(fs)
             o['failed'].append(dict(job=j['name'], task=j.get('task'), result=r['result'], reason=r.get('reason'),
                                     backend=r.get('backend'), model=r.get('model'), subgoals=failed_subs,
-                                    time=r.get('time'), smt=j.get('smt'), witness=r.get('witness')))
+                                    time=r.get('time'), smt=j.get('smt') or r.get('smt'), witness=r.get('witness')))
     for o in out.values():
         o['solver_time'] = round(o['solver_time'], 2)
     return out, dict(gen_wall=round(t_gen, 2), solve_wall=round(t_solve, 2), jobs=len(jobs))
